@@ -905,7 +905,7 @@ func (c *Component) maybeEnqueue(kind queuedEventKind, ev events.Event) bool {
 	if c.queueDrained {
 		return false
 	}
-	if len(c.pendingEvents) >= eventQueueBound {
+	if len(c.pendingEvents) >= eventQueueBound && !isReleaseEvent(kind, ev) {
 		c.queueDropped++
 		c.markRestoreDegradedLocked("event_queue_overflow")
 		c.logger.Warn("CGNAT event queue full; dropping event",
@@ -914,6 +914,18 @@ func (c *Component) maybeEnqueue(kind queuedEventKind, ev events.Event) bool {
 	}
 	c.pendingEvents = append(c.pendingEvents, queuedEvent{kind: kind, ev: ev})
 	return true
+}
+
+// isReleaseEvent reports whether a queued event is a session release. Releases
+// are never dropped at the queue bound: a lost activation only leaves a session
+// without CGNAT, but a lost release leaves its port blocks and reverse entries
+// allocated to a departed subscriber until the next restart.
+func isReleaseEvent(kind queuedEventKind, ev events.Event) bool {
+	if kind != qLifecycle {
+		return false
+	}
+	data, ok := ev.Data.(*events.SessionLifecycleEvent)
+	return ok && data.State == models.SessionStateReleased
 }
 
 func (c *Component) drainQueue() {
